@@ -27,6 +27,10 @@ Decided (all on normal forms, nothing on source text or positions):
   C07.compose-value  the statements that follow the date / time sub-parser calls of a composing function are interpreted with a
                    date value that carries a time of day (and the day-part shift scenarios): the emitted values take
                    year/month/day from the date value and hour (after the shift) / minute / second from the time.
+  C07.suffix-table adjust_by_suffix of every culture's time parser configuration (the worded am / pm markers), interpreted with
+                   sa/ointerp.py on AdjustParams(hour) and a stub match of the suffix pattern, per captured group (am / pm / neither /
+                   no match) x hour x every combination of the day-part patterns it consults on the captured words: am words 12 -> 0,
+                   1..11 unchanged and marked; pm words 1..11 -> +12, 12 -> 12; day-part words keep the hour of the half day.
   C07.compose      "<date> at <time>": in every date-time / date-time-range parser function that parses a time
                    sub-entity, the TIMEX it assigns is derived (dataflow) from that sub-result's own timex_str - and
                    from the date sub-result's timex_str when a date is parsed too - and format_short_time /
@@ -51,7 +55,9 @@ META = {
             'about the numbers tables. The falsy-zero rule only sees ints whose provenance is a time group of the '
             'match (by group name) inside one function; values passed through attributes or other functions are '
             'not followed. The guard rule checks the presence of a <= 12 bound, not that it bounds the right '
-            'quantity.',
+            'quantity. C07.suffix-table does not decide which words the suffix patterns accept nor the culture-specific '
+            'lunch / night conventions. Which middle strings join a date and a time (is_connector_token: ConnectorRegex / '
+            'PrepositionRegex, e.g. the English ", at") is a pure regex-language question with no second table in the source: not decided.',
     'technique': 'ast def-use inside one function (provenance of ints from named regex groups), path conditions '
                  'from enclosing if/elif chains, evaluation of Constants.* through the source index, finite '
                  'evaluation of the to_pm hour expression, writer/reader set comparison',
@@ -1958,6 +1964,199 @@ def rule_token_offsets(chk, idx):
 
 
 # ---------------------------------------------------------------------------------------------------
+# rule 13: the worded am / pm suffix ("in the morning", "in the afternoon"): adjust_by_suffix of every culture, tabulated
+
+SUFFIX_TEXT, AM_TEXT, PM_TEXT = 'suffix words', 'am words', 'pm words'
+
+
+def suffix_table(idx, mod, cls, fn, attr_names):
+    """interpret adjust_by_suffix(self, suffix, AdjustParams(hour)) of one configuration class with sa/ointerp.py.
+    The suffix pattern is a stub that matches the whole suffix with the 'am' / 'pm' group of the scenario captured; every other
+    pattern searched on the captured group text (lunch / night words) is matched or not, every combination.
+    -> (problems, notes, nprobes)"""
+    import itertools
+    from ..ointerp import FuncRef, Interp, Native, Obj, PyExc, native
+    ap = idx.cls(PKG + '.base_time.AdjustParams')
+
+    def run_one(scenario, hour, on):
+        """scenario: 'am' | 'pm' | 'other' (matched, neither group captured) | 'nomatch'; on: labels of secondary patterns that match"""
+        seen = []
+        groups = {'am': AM_TEXT if scenario == 'am' else None, 'pm': PM_TEXT if scenario == 'pm' else None}
+
+        def group(it, a, k):
+            if not a or a[0] == 0:
+                return SUFFIX_TEXT
+            if len(a) != 1 or not isinstance(a[0], str):
+                raise AnalysisError('%s.%s: match.group%r of the suffix match is not modelled' % (cls.name, fn.name, tuple(a)))
+            return groups.get(a[0])
+        primary = Native({'start': native(lambda it, a, k: 0), 'end': native(lambda it, a, k: len(SUFFIX_TEXT)),
+                          'group': native(group), 'success': True, 'length': len(SUFFIX_TEXT), 'index': 0, 'value': SUFFIX_TEXT,
+                          'groupdict': native(lambda it, a, k: {g: (g, v) for g, v in groups.items()})}, 'match of the suffix')
+        secondary = Native({'start': native(lambda it, a, k: 0), 'group': native(lambda it, a, k: 'word'), 'success': True},
+                           'match inside the am/pm words')
+
+        def search(label, text, anchored):
+            if not isinstance(text, str):
+                raise AnalysisError('%s.%s: a pattern is searched in %r, not in text' % (cls.name, fn.name, text))
+            if text == SUFFIX_TEXT:
+                return primary if scenario != 'nomatch' else None
+            if text in (AM_TEXT, PM_TEXT):
+                if label not in seen:
+                    seen.append(label)
+                return secondary if label in on else None
+            raise AnalysisError('%s.%s: a pattern is searched in a text the tabulation does not model (%r)' % (cls.name, fn.name, text))
+        pats = {}
+
+        def pattern(label):
+            if label not in pats:
+                pats[label] = Native({'search': native(lambda it, a, k, label=label: search(label, a[0], False)),
+                                      'match': native(lambda it, a, k, label=label: search(label, a[0], True)),
+                                      'fullmatch': native(lambda it, a, k, label=label: search(label, a[0], True))}, 'pattern ' + label)
+            return pats[label]
+
+        def modsearch(it, a, k):
+            if len(a) < 2 or not isinstance(a[0], Native) or not a[0].label.startswith('pattern '):
+                raise AnalysisError('%s.%s: regex search with a pattern that is not an attribute of the configuration (%r)'
+                                    % (cls.name, fn.name, a[:1]))
+            return search(a[0].label[len('pattern '):], a[1], False)
+        it = Interp(idx, hooks={'regex.search': modsearch, 'regex.match': modsearch, 'regex.fullmatch': modsearch},
+                    where='%s.%s' % (cls.name, fn.name), budget=20000)
+        selfo = Obj(cls, {a: pattern(a) for a in attr_names})
+        adj = it.instantiate(ap, [hour, 0, False, False, False], {}, fn)
+        it.call_function(FuncRef(mod, fn, cls), ['  ' + SUFFIX_TEXT.upper() + ' ', adj], {}, fn, selfobj=selfo)
+        out = adj.attrs
+        for f_ in ('hour', 'minute', 'has_am', 'has_pm'):
+            if f_ not in out:
+                raise AnalysisError('AdjustParams has no field %s after %s.%s' % (f_, cls.name, fn.name))
+        if not isinstance(out['hour'], int) or isinstance(out['hour'], bool):
+            raise AnalysisError('%s.%s leaves a non-integer hour %r' % (cls.name, fn.name, out['hour']))
+        return out, seen
+
+    problems, notes, n = [], [], 0
+    for scenario in ('am', 'pm', 'other', 'nomatch'):
+        hours = range(1, 13) if scenario in ('am', 'pm') else range(0, 24)
+        labels = []
+        if scenario in ('am', 'pm'):
+            # which other patterns are consulted on the captured words: fixpoint over what the runs ask for
+            for _round in range(4):
+                before = list(labels)
+                for h in hours:
+                    for r in range(len(before) + 1):
+                        for on in itertools.combinations(before, r):
+                            try:
+                                _o, seen = run_one(scenario, h, set(on))
+                            except PyExc:
+                                continue
+                            for s_ in seen:
+                                if s_ not in labels:
+                                    labels.append(s_)
+                if labels == before:
+                    break
+            if len(labels) > 4:
+                raise AnalysisError('%s.%s consults %d patterns on the am/pm words; the tabulation handles at most 4'
+                                    % (cls.name, fn.name, len(labels)))
+        for h in hours:
+            for r in range(len(labels) + 1):
+                for on in itertools.combinations(labels, r):
+                    n += 1
+                    what = {'am': 'am words', 'pm': 'pm words', 'other': 'suffix without am/pm words', 'nomatch': 'suffix not matched'}[scenario]
+                    if on:
+                        what += ' (+ ' + ', '.join(on) + ' matches)'
+                    try:
+                        out, _seen = run_one(scenario, h, set(on))
+                    except PyExc as e:
+                        problems.append('%s, hour %d: raises %s' % (what, h, e))
+                        continue
+                    got, marked = out['hour'], bool(out['has_am']) or bool(out['has_pm'])
+                    if out['minute'] != 0:
+                        problems.append('%s, hour %d: minute becomes %r' % (what, h, out['minute']))
+                    if scenario in ('other', 'nomatch'):
+                        if got != h:
+                            problems.append('%s: hour %d -> %r, expected %d' % (what, h, got, h))
+                        continue
+                    if not on:
+                        want = (0 if h == 12 else h) if scenario == 'am' else (12 if h == 12 else h + 12)
+                        if got != want:
+                            problems.append('%s: hour %d -> %r, expected %d' % (what, h, got, want))
+                            continue
+                    elif not (0 <= got <= 23 and got % 12 == h % 12):
+                        problems.append('%s: hour %d -> %r, not the same hour of a half day' % (what, h, got))
+                        continue
+                    if 1 <= got <= 12 and not marked:
+                        # the hour stays in 1..12 and neither has_am nor has_pm is set: match_to_time will mark it am/pm-ambiguous
+                        (problems if scenario == 'am' and not on else notes).append(
+                            '%s: hour %d -> %d with neither has_am nor has_pm set (two readings follow)' % (what, h, got))
+    return sorted(set(problems), key=lambda x: (x.split(':')[0], len(x), x)), sorted(set(notes)), n
+
+
+SUFFIX_CONTROL = """
+def adjust_by_suffix(self, suffix, adjust):
+    suffix = suffix.strip().lower()
+    delta_hour = 0
+    match = regex.search(self.time_suffix, suffix)
+    if match is not None and match.start() == 0 and match.group() == suffix:
+        if RegExpUtility.get_group(match, 'am'):
+            if adjust.hour > 12:
+                delta_hour = -12
+            else:
+                adjust.has_am = True
+        if RegExpUtility.get_group(match, 'pm'):
+            if adjust.hour < 12:
+                delta_hour = 12
+            adjust.has_pm = True
+    adjust.hour = (adjust.hour + delta_hour) % 24
+"""
+
+
+def _init_attr_names(idx, cls):
+    """names assigned as self.<name> in the __init__ methods along the MRO (the compiled patterns of a configuration)"""
+    names = set()
+    for k in idx.mro(cls):
+        init = k.methods.get('__init__')
+        if init is None:
+            continue
+        for n in ast.walk(init):
+            if isinstance(n, ast.Attribute) and isinstance(n.ctx, ast.Store) and isinstance(n.value, ast.Name) and n.value.id == 'self':
+                names.add(n.attr)
+    return names
+
+
+def rule_suffix_table(chk, idx):
+    rid = 'C07.suffix-table'
+    chk.rule(rid, 'adjust_by_suffix of every culture, tabulated over hour x captured group: worded am ("in the morning") 12 -> 0 and '
+                  '1..11 unchanged and marked; worded pm 1..11 -> +12 and 12 -> 12; day-part words (lunch / night) keep the hour of the '
+                  'half day; no am/pm words: unchanged', floor=5, control=True)
+    base = idx.cls(PKG + '.base_time.TimeParserConfiguration')
+    if 'adjust_by_suffix' not in base.methods:
+        raise AnalysisError('TimeParserConfiguration.adjust_by_suffix: anchor vanished')
+    btp = idx.cls(PKG + '.base_time.BaseTimeParser')
+    mt = btp.methods.get('match_to_time')
+    if mt is None or not any(isinstance(n, ast.Call) and isinstance(n.func, ast.Attribute) and n.func.attr == 'adjust_by_suffix'
+                             for n in ast.walk(mt)):
+        raise AnalysisError('BaseTimeParser.match_to_time no longer calls config.adjust_by_suffix: the rule has lost its anchor')
+    cfn = ast.parse(SUFFIX_CONTROL).body[0]
+    cp, _cn, _n = suffix_table(idx, base.mod, base, cfn, {'time_suffix'})
+    chk.control(rid, any('hour 12 -> 12, expected 0' in p for p in cp))
+    for c in sorted(idx.all_classes(), key=lambda k: k.qual):
+        if not (c.mod.name == PKG or c.mod.name.startswith(PKG + '.')) or c is base:
+            continue
+        fn = c.methods.get('adjust_by_suffix')
+        if fn is None or base not in idx.mro(c):
+            continue
+        body = [st for st in fn.body if not (isinstance(st, ast.Expr) and isinstance(st.value, ast.Constant))]
+        if len(body) == 1 and isinstance(body[0], (ast.Raise, ast.Pass)):
+            chk.exempt(rid, c.mod.path, '%s.adjust_by_suffix' % c.name, 'abstract / empty body')
+            continue
+        chk.consulted(c.mod.path)
+        problems, notes, n = suffix_table(idx, c.mod, c, fn, _init_attr_names(idx, c))
+        chk.judge(not problems, rid, c.mod.path, '%s.adjust_by_suffix' % c.name,
+                  '%d probes (captured group x hour x day-part patterns); wrong: %s' % (n, '; '.join(problems[:3]) if problems else 'none'),
+                  'the hour under a worded am/pm suffix is wrong: %s' % '; '.join(problems[:4]), fn.lineno)
+        for t in notes[:2]:
+            chk.observe('%s: %s.adjust_by_suffix: %s' % (rid, c.name, t))
+
+
+# ---------------------------------------------------------------------------------------------------
 
 def run(chk):
     chk.explanation = ('contradiction rule on the time decoders (an int decoded from an hour/minute/second group must not be '
@@ -1975,6 +2174,7 @@ def run(chk):
     rule_hour_table(chk, idx)
     rule_compose_value(chk, idx)
     rule_token_offsets(chk, idx)
+    rule_suffix_table(chk, idx)
     chk.assume('RegExpUtility.get_group / get_group_list / Match.group return the text of the named group; group names '
                'hour/min/sec denote digit groups whose language contains 0 and 00 (the property quantifies over 00:00..23:59:59)')
     chk.assume('callee identity is by attribute name on DateTimeFormatUtil (to_pm, all_str_to_pm); no monkey patching')
